@@ -224,6 +224,24 @@ def same(a, b) -> bool:
     return a.same(b, zero_sign=False)
 
 
+def same_strict(a, b) -> bool:
+    """`same`, but a zero must have the same sign"""
+    if isinstance(a, bool) or isinstance(b, bool):
+        return isinstance(a, bool) and isinstance(b, bool) and a == b
+    if isinstance(a, tuple) or isinstance(b, tuple):
+        return (isinstance(a, tuple) and isinstance(b, tuple) and len(a) == len(b)
+                and all(same_strict(x, y) for x, y in zip(a, b)))
+    return a.same(b, zero_sign=True)
+
+
+def has_zero(v) -> bool:
+    if isinstance(v, bool):
+        return False
+    if isinstance(v, tuple):
+        return any(has_zero(x) for x in v)
+    return v.iszero
+
+
 def show(v) -> str:
     if isinstance(v, tuple):
         return '(' + ', '.join(show(x) for x in v) + ')'
@@ -265,6 +283,13 @@ SCALARS_MORE = [(0.1, 8401.64), (65504.0, 1.0009765625), (2.0 ** -20, 3.0), (1e-
 LISTS = {0: [[]], 1: [[THIRD], [8401.64]], 2: [[8401.64, THIRD], [0.1, -2.25]],
          3: [[0.1, -2.25, THIRD], [1.1, 8401.64, 0.7]]}
 LISTS_MORE = {1: [[float('nan')]], 2: [[float('inf'), 1.5]], 3: [[THIRD, THIRD, -0.0]]}
+
+
+# family Z: +0.0 / -0.0 in both orders (and against a non-zero)
+ZERO_SCALARS = [(0.0, -0.0), (-0.0, 0.0), (0.0, 0.0), (-0.0, -0.0), (-0.0, 3.0), (0.0, -3.0), (1.5, -0.0),
+                (-2.25, 0.0)]
+ZERO_LISTS = {1: [[-0.0], [0.0]], 2: [[0.0, -0.0], [-0.0, 0.0]],
+              3: [[0.0, -0.0, 0.0], [-0.0, 0.0, -0.0], [-0.0, -0.0, 0.0], [-1.5, -0.0, 0.0], [0.0, -0.0, -1.5]]}
 
 
 def flat_items(items):
@@ -608,7 +633,7 @@ class Check(BaseCheck):
                 xpairs=[(o, i) for o in ('H_RTZ', 'S_RTP', 'D_RNE', 'INT') for i in ('H_RTN', 'D_RTZ', 'I_RNE')],
                 scalars=SCALARS_QUICK, lists=LISTS,
                 rcores=dict(funcs=['none', 'P32', 'Rz', 'P32Rz'], anns=list(G.R_ANN), nested=G.R_NESTED),
-                vouters=['H_RTZ'],
+                vouters=['H_RTZ'], zouters=['D_RNE', 'H_RTP'],
             )
             # seed-rotated extra slice of the next bound (size-4 skeletons), on top of the complete core
             plan['slice'] = dict(sizes=(4,), depth=3, kinds=allk, outer=['H_RTZ'], inner=['D_RNE'],
@@ -629,6 +654,7 @@ class Check(BaseCheck):
                 lists={k: LISTS[k] + LISTS_MORE.get(k, []) for k in LISTS},
                 rcores=dict(funcs=list(G.R_FUNC_PROPS), anns=list(G.R_ANN), nested=G.R_NESTED),
                 vouters=['H_RTZ', 'D_RNE', 'S_RTP', 'INT', 'H_RNE'],
+                zouters=['D_RNE', 'H_RTP', 'S_RTP', 'H_RTZ', 'S_RNE'],
             )
         return plan
 
@@ -648,11 +674,17 @@ class Check(BaseCheck):
                     yield prog
         yield from G.template_programs(list(G.TEMPLATES), plan['pairs'])
         yield from G.intro_programs(plan['vouters'], 'D_RNE')
+        yield from G.zero_programs(plan['zouters'])
         yield from G.extra_programs(plan['xpairs'])
 
-    def inputs(self, sig: str):
+    def inputs(self, sig: str, family: str = ''):
         """[(nlist | None, [args, ...])]"""
         plan = self._tier()
+        if family == 'Z':
+            if sig == 'scalar':
+                return [(None, [list(p) for p in ZERO_SCALARS])]
+            return [(n, [[list(us), u, v] for us in ZERO_LISTS[n] for (u, v) in ((0.0, -0.0), (-0.0, 1.5))])
+                    for n in sorted(ZERO_LISTS)]
         if sig == 'scalar':
             return [(None, [list(p) for p in plan['scalars']])]
         out = []
@@ -703,6 +735,8 @@ class Check(BaseCheck):
                            'inputs': len(self.core_inputs())}
         b['intro_family'] = {'names': list(G.V_NAMES), 'mutated': [''.join(m) for m in G.V_MUTATED],
                              'places': list(G.V_PLACES), 'outer': plan['vouters']}
+        b['zero_sign_family'] = {'programs': list(G.Z_SCALAR) + list(G.Z_LIST), 'returns': list(G.Z_RETURNS),
+                                 'outer': plan['zouters'], 'scalar_inputs': len(ZERO_SCALARS)}
         b['template_pairs'] = len(plan['pairs'])
         b['templates'] = list(G.TEMPLATES)
         b['scalar_inputs'] = len(plan['scalars'])
@@ -1051,6 +1085,14 @@ class Check(BaseCheck):
                 hit = [nm for nm, val in meaning if same(val, vf)]
                 if hit:
                     compile_ok = True
+                    # the sign of a zero result, where titanfp and the standard evaluator agree on it
+                    if rm[0] == 'ok' and same_strict(rm[1], rt[1]) and has_zero(rt[1]):
+                        r.count('zero_sign_judged')
+                        if not same_strict(vf, rt[1]):
+                            violate({'direction': 'compile', 'kind': 'sign of zero', 'shape': kinds,
+                                     'cause': 'unexplained'}, args,
+                                    f'\nargs {show_args(args)}\ncore: {text}\nFPy interpreter : {show(vf)}\n'
+                                    f'core by titanfp and by the standard: {show(rt[1])}\n')
                     if 'titanfp' not in hit:
                         r.count('titanfp_quirk')
                         r.outcomes['compile:agrees-with-standard-not-titanfp'] += 1
@@ -1146,6 +1188,12 @@ class Check(BaseCheck):
             if meaning:
                 if any(same(val, vg) for _, val in meaning):
                     r.outcomes['read:agree'] += 1
+                    if rm[0] == 'ok' and same_strict(rm[1], rt[1]) and has_zero(rt[1]) \
+                            and not same_strict(vg, rt[1]):
+                        violate({'direction': 'read', 'kind': 'sign of zero', 'via': via, 'shape': kinds,
+                                 'cause': 'unexplained'}, args,
+                                f'\nargs {show_args(args)}\ncore: {text}\nre-read function : {show(vg)}\n'
+                                f'core by titanfp and by the standard: {show(rt[1])}\n')
                 elif undefined:
                     r.outcomes['read:differs-on-undefined-core'] += 1
                 else:
@@ -1316,7 +1364,7 @@ class Check(BaseCheck):
             tags['key'] = prog.key
             if sunk is not None:
                 r.count('programs_with_stmt_after_with')
-            for nlist, argss in self.inputs(prog.sig):
+            for nlist, argss in self.inputs(prog.sig, prog.family):
                 self.examine(r, src, sunk, flat, prog.sig, nlist, argss, tags)
             _reset_caches()
             linecache.clearcache()
@@ -1355,7 +1403,7 @@ class Check(BaseCheck):
         if args is None:
             # program-level failure (compiler crash / from_fpcore raising): no input needed, but
             # `examine` wants one to run through
-            argss = self.inputs(case['sig'])
+            argss = self.inputs(case['sig'], case.get('tags', {}).get('family', ''))
             argss = [a for n, lst in argss if n == case['nlist'] for a in lst][:1]
         else:
             argss = [dec_args(args)]
